@@ -836,6 +836,27 @@ def run(ctx, prog):
                        'Full archive before the incrementals of the walk — recorded after them, the Full overwrites the newer MANIFEST and segment and the directory '
                        'silently starts as of the Full backup (restore-by-id: the reversed chain of R8)')
     ex9 = ctx.body('C12.R9', 'RestoreManager::extract_backup_archive')
+    # (c) the last writer wins completely only if it writes at all: every member of the archive is streamed into its target — no iteration of the member loop reaches
+    # the next member without the stream call (a "target already has that length" short-cut keeps the parent's MANIFEST, which has the same length as the
+    # incremental's whenever the segment count and the digit counts agree)
+    if ex9 is not None:
+        st9 = [c for c in ex9.calls if c.callee and re.search(r'stream_member_to_writer$', c.callee)]
+        heads9 = [h for h in ex9.calls if h.callee and h.is_('re:Iterator>::next$', 're:range::next$') and st9 and all(ex9.dominates(h.bb, c.bb) for c in st9) and
+                  any(h.bb in ex9.reach(ex9.succ(c.bb)) for c in st9)]
+        if not st9 or not heads9:
+            ctx.missing('C12.R9', 'extract_backup_archive: member loop with stream_member_to_writer')
+        else:
+            h9 = heads9[-1]
+            errs9 = flow.err_blocks(ex9)
+            # enter the loop body through the Some edge, come back to the head without streaming
+            body_starts = [x for x in ex9.succ(h9.to if h9.to is not None else h9.bb)]
+            r9 = ex9.reach(ex9.succ(h9.bb), avoid_blocks=[c.bb for c in st9] + list(errs9))
+            # the head itself is re-entered only through the body; the first entry into the head comes from outside the loop
+            back = h9.bb in ex9.reach([x for x in ex9.succ(h9.bb)], avoid_blocks=[c.bb for c in st9] + list(errs9)) and \
+                any(h9.bb in ex9.reach(ex9.succ(x), avoid_blocks=[c.bb for c in st9] + list(errs9)) for x in r9 if x != h9.bb and ex9.dominates(h9.bb, x) and x in ex9.reach(ex9.succ(h9.bb)))
+            ctx.inst('C12.R9', ex9.short, 'every member of the archive is streamed into its target', not back,
+                     'the next member can be reached without stream_member_to_writer for this one (a member is skipped: an older file of the same name stays in place)' if back
+                     else 'no iteration of the member loop avoids the stream call (%d stream site(s))' % len(st9))
     if ex9 is not None:
         o9 = flow.Origin(ex9)
         sinks = [c for c in ex9.calls if c.callee and c.is_('backup::stream_member_to_writer', 're:io::copy$', 're:Write>::write_all$', 're:fs::write$')]
